@@ -2219,3 +2219,8 @@ mod tests {
         }
     }
 }
+
+// verification hook: Kani harnesses kept outside the repository, compiled only by `cargo kani`
+#[cfg(kani)]
+#[path = "/verif/kani/inline/monitor.rs"]
+mod verif_kani;
